@@ -7,7 +7,7 @@ foreign pointers) and EVERY configuration `JitAllocator_new_impl` can produce.  
 the `used` and `stop` bit vectors, `area_used`, the kFlagEmpty / kFlagIncremental flags and the incremental-mode cache to the table of
 spans the caller holds; the proof is by induction over the history (`Inv.step`, Lemmas/JitAllocStep.lean).
 
-Not proved here (only tested by the correspondence + monitor, see notes/C09.md): `query` of interior addresses (`spanStart`), the
+Not proved here (only tested by the correspondence + monitor, see notes/C09.md): the
 pool totals (used / reserved size) as sums over blocks, the retention policy (number of empty blocks), the search-window cache
 (`search_start/search_end/largest_unused_area` outside incremental mode) and with it "released memory is found again", contents /
 fill pattern of memory.  Full-strength statement of the part that is still open:
@@ -142,6 +142,31 @@ theorem release_ok {s : St} (h : Reachable s) {j : Nat} {hd : Handle} (e : s.tab
   rcases hr : s.a.release hd.blk hd.off with ⟨a', (e' | u)⟩
   · rw [hr] at hok; simp at hok
   · exact ⟨rfl, rfl⟩
+
+/-- **Queries reflect exactly the live spans**: `query` of ANY address inside a live span (first byte or interior) succeeds and
+returns exactly that span — its block, its first byte, its size. -/
+theorem query_exact {s : St} (h : Reachable s) {j : Nat} {hd : Handle} (e : s.tab[j]? = some hd) (l : hd.live = true)
+    (o : Nat) (ho : o < hd.size) :
+    ∃ b ∈ s.a.blocks, b.id = hd.blk ∧
+      s.a.query hd.blk (hd.off + o) = .ok { blk := hd.blk, pool := b.pool, blockSize := b.blockSize, off := hd.off, size := hd.size } := by
+  have hI := reachable_inv h
+  obtain ⟨b, hb, eb, st, n, o1, o2⟩ := hI.owned j hd e l
+  have hg := poolGran_pos hI.wf b.pool
+  have hS : Spans s.tab b.id (s.a.cfg.poolGran b.pool) st n := ⟨j, hd, e, l, eb.symm, o1, o2⟩
+  have hidx : (hd.off + o) / s.a.cfg.poolGran b.pool = st + o / s.a.cfg.poolGran b.pool := by
+    rw [o1, Nat.mul_comm, Nat.mul_add_div hg]
+  have hlt : o / s.a.cfg.poolGran b.pool < n := by
+    apply Nat.div_lt_of_lt_mul
+    rw [Nat.mul_comm, ← o2]; exact ho
+  obtain ⟨q1, q2, q3⟩ := (hI.blk b hb).1.toBCore.locate hS (idx := st + o / s.a.cfg.poolGran b.pool) (Nat.le_add_right _ _) (Nat.add_lt_add_left hlt st)
+  obtain ⟨_, hn, _⟩ := (hI.blk b hb).1.inside st n hS
+  refine ⟨b, hb, eb, ?_⟩
+  have hf := findBlock_of_mem hI.ids hb
+  rw [eb] at hf
+  simp only [Alloc.query, hf, hidx, q1, q2, q3, Bool.not_true, Bool.false_eq_true, if_false]
+  congr 2
+  · exact o1.symm
+  · rw [o2]; congr 1; omega
 
 /-- **Foreign / unknown blocks are rejected without touching the state** (lookup by address fails) -/
 theorem unknown_block_rejected (a : Alloc) (blk off n : Nat) (hnone : a.findBlock blk = none) :
